@@ -1,13 +1,16 @@
 #!/venv/bin/python
 """Apply a seeded patch in memory and report which checks fire.
 usage: tools/try_seed.py <patch.diff> [<patch.diff> ...]   (or directories containing patch.diff)"""
-import importlib, sys, json
+import importlib, sys, json, re
 from pathlib import Path
 V = Path(__file__).resolve().parent.parent
 sys.path.insert(0, str(V))
 from selftest.harness import overlay_from_diff, src_dir
 from mdsa.loader import Program, AnalysisError
 from mdsa.report import Report, _load_known
+
+VERBOSE = False
+ONLY = None
 
 def run(diff: Path):
     ov = overlay_from_diff(diff)
@@ -17,6 +20,8 @@ def run(diff: Path):
     out = {}
     for rf in sorted((V / "rules").glob("c[0-9][0-9].py")):
         pid = rf.stem.upper()
+        if ONLY and pid not in ONLY:
+            continue
         mod = importlib.import_module(f"rules.{rf.stem}")
         rep = Report(pid, "quick"); rep.program_stats = P.stats()
         try:
@@ -26,7 +31,10 @@ def run(diff: Path):
         except Exception as e:
             out[pid] = [f"CRASH: {type(e).__name__}: {e}"]; continue
         known = {k["key"] for k in _load_known().get("known", []) if k.get("property") == pid}
-        new = sorted({f"{f.rule} @ {f.func}" for f in rep.findings if f.key not in known})
+        if VERBOSE:
+            new = sorted({f"{f.rule} @ {f.func} :: {f.construct[:90]} :: {f.message[:160]}" for f in rep.findings if f.key not in known})
+        else:
+            new = sorted({f"{f.rule} @ {f.func}" for f in rep.findings if f.key not in known})
         if new:
             out[pid] = new
         elif rep.analysis_errors:
@@ -34,9 +42,23 @@ def run(diff: Path):
     return out
 
 if __name__ == "__main__":
-    for a in sys.argv[1:]:
+    args = sys.argv[1:]
+    if "-v" in args:
+        VERBOSE = True
+        args.remove("-v")
+    for a in list(args):
+        if re.fullmatch(r"C\d\d(,C\d\d)*", a):
+            ONLY = set(a.split(","))
+            args.remove(a)
+    for a in args:
         p = Path(a)
         if p.is_dir():
             p = p / "patch.diff"
         r = run(p)
-        print(f"{p}: {json.dumps(r)}")
+        if VERBOSE:
+            print(p)
+            for k, v in r.items():
+                for x in v:
+                    print("   ", k, x)
+        else:
+            print(f"{p}: {json.dumps(r)}")
